@@ -164,7 +164,17 @@ def synset_obs(ss, deep: bool = True) -> dict:
         o['lemmas'] = [str(x) for x in lem] if not _raised(lem) else lem
         o['relation_map'] = relmap_obs(ss)
         o['relations'] = {k: [key_of(t) for t in v] for k, v in ss.relations().items()}
-        o['get_related'] = [key_of(t) for t in ss.get_related()]
+        related = ss.get_related()
+        o['get_related'] = [key_of(t) for t in related]
+        # second hop from placeholders: an inferred synset keeps answering within the Wordnet
+        # it came from
+        nxt = {}
+        for t in related:
+            k = key_of(t)
+            if isinstance(k, dict):
+                nxt[f"{k['placeholder']}[{k['ili']}]"] = sorted(
+                    str(key_of(x)) for x in t.get_related())
+        o['inferred_next'] = nxt
         o['hypernyms'] = [key_of(t) for t in ss.hypernyms()]
         o['hyponyms'] = [key_of(t) for t in ss.hyponyms()]
     return o
